@@ -113,12 +113,43 @@ def _touches_private(stmt):
     return sorted({a for n in _own_nodes(stmt) for a in [_self_attr(n)] if a in PRIVATE})
 
 
+# methods of EventData that are not the publication of an outcome (their stores keep their own labels / `unknown`)
+_EVENT_OTHER = ("__init__", "clear", "is_set", "wait", "data", "exception")
+
+
+def _lock_aliases(fn):
+    """Locals of `fn` bound exactly once, from `self.__lock` (`lock = self.__lock`): another name of the same lock."""
+    count, alias = {}, set()
+    for n in ast.walk(fn):
+        if isinstance(n, ast.Name) and isinstance(n.ctx, (ast.Store, ast.Del)):
+            count[n.id] = count.get(n.id, 0) + 1
+        if isinstance(n, ast.Assign) and len(n.targets) == 1 and isinstance(n.targets[0], ast.Name) \
+                and _self_attr(n.value) == "__lock":
+            alias.add(n.targets[0].id)
+    return {a for a in alias if count.get(a) == 1}
+
+
+def _is_lock(node, aliases):
+    return _self_attr(node) == "__lock" or (isinstance(node, ast.Name) and node.id in aliases)
+
+
 def _classify(cls, fn, stmt, params):
     """Label of one simple statement / block header, or None when the line is local (silent)."""
     priv = _touches_private(stmt)
     name = fn.name
-    if isinstance(stmt, ast.With) and len(stmt.items) == 1 and _self_attr(stmt.items[0].context_expr) == "__lock":
+    aliases = _lock_aliases(fn)
+    if isinstance(stmt, ast.With) and len(stmt.items) == 1 and _is_lock(stmt.items[0].context_expr, aliases):
         return Label("lock")
+    # the same critical section spelt `self.__lock.acquire()` ... `self.__lock.release()`: the shim lock reports the
+    # acq / rel events of these lines exactly as it does for the two ends of a `with`
+    if isinstance(stmt, ast.Expr) and isinstance(stmt.value, ast.Call) and isinstance(stmt.value.func, ast.Attribute) \
+            and stmt.value.func.attr in ("acquire", "release") and _is_lock(stmt.value.func.value, aliases) \
+            and not stmt.value.args and not stmt.value.keywords:
+        return Label("lock")
+    # `lock = self.__lock`: binds a local to an attribute that only __init__ stores; nothing shared is read or written
+    if isinstance(stmt, ast.Assign) and len(stmt.targets) == 1 and isinstance(stmt.targets[0], ast.Name) \
+            and stmt.targets[0].id in aliases and _self_attr(stmt.value) == "__lock":
+        return None
     if isinstance(stmt, ast.Assign) and len(stmt.targets) == 1:
         tgt, val = stmt.targets[0], stmt.value
         ta, va = _self_attr(tgt), _self_attr(val)
@@ -139,9 +170,10 @@ def _classify(cls, fn, stmt, params):
                     and params and val.func.id == params[0]):
                 return Label("call")
         if cls == "EventData":
-            if name in ("set", "raise_exception") and ta == "__data":
+            # (in set / raise_exception or in a helper of theirs; clear() is not part of the protocol)
+            if name not in _EVENT_OTHER and ta == "__data":
                 return Label("sData")
-            if name in ("set", "raise_exception") and ta == "__exception":
+            if name not in _EVENT_OTHER and ta == "__exception":
                 return Label("sExc")
             if name == "wait" and isinstance(tgt, ast.Name) and isinstance(val, ast.Call) \
                     and isinstance(val.func, ast.Attribute) and val.func.attr == "wait" \
@@ -149,7 +181,7 @@ def _classify(cls, fn, stmt, params):
                 return Label("wait")
     if isinstance(stmt, ast.Expr) and isinstance(stmt.value, ast.Call):
         call = stmt.value
-        if cls == "EventData" and name in ("set", "raise_exception") and isinstance(call.func, ast.Attribute) \
+        if cls == "EventData" and name not in _EVENT_OTHER and isinstance(call.func, ast.Attribute) \
                 and call.func.attr == "set" and _self_attr(call.func.value) == "__event":
             return Label("sEvt")
         # the call of the registered callable and `self._logger.exception(...)` are NOT labelled by line: they
